@@ -43,7 +43,8 @@ REQUIRED = ["histories", "connections_up", "connections_down",
             "errors_resembling_barrier_unsupported", "messages_split_across_reads",
             "features_replies_on_stale_connections",
             "connections_closed_again_by_a_down_handler",
-            "histories_with_another_nexus_configuration"]
+            "histories_with_another_nexus_configuration",
+            "connection_up_events_halted_on_the_nexus"]
 TIMEOUT = {"quick": 900, "thorough": 7200}
 
 # (datapath id 0 is a legal id: code that tests "if dpid:" instead of
@@ -106,6 +107,17 @@ class Monitor (object):
     core.openflow.addListenerByName("ConnectionDown", self.on_down)
     core.openflow.addListenerByName("PortStatus", self.on_ps)
     self.handlers_attached = True
+    self.halter = None
+    if case.get("halt_up"):
+      # the last ConnectionUp listener on the nexus halts the event: it then
+      # is not raised on the connection itself - and that is all halting
+      # means (the port-status messages that came early are still owed)
+      from pox.lib.revent import EventHalt
+      def halter (e):
+        self.rep.count("connection_up_events_halted_on_the_nexus")
+        return EventHalt
+      self.halter = halter
+      core.openflow.addListenerByName("ConnectionUp", halter, priority=-1000)
 
   def fire (self, key, what):
     self.bad = True
@@ -258,7 +270,7 @@ class Monitor (object):
     for p in self.peers.values():
       if p.con is not None:
         self.rep.count("connection_level_events_compared")
-        if (p.cup, p.cdown, p.cps) != (p.up, p.down, p.ps_seen):
+        if (p.cup, p.cdown, p.cps) != (0 if self.halter else p.up, p.down, p.ps_seen):
           self.fire("events on the connection object differ from those on the nexus",
                     "peer %d after %s: connection saw up=%d down=%d port-status %r, "
                     "nexus up=%d down=%d port-status %r" %
@@ -545,7 +557,8 @@ def _run_history (case, rep, w):
     except Exception:
       pass
     for name, h in (("ConnectionUp", mon.on_up), ("ConnectionDown", mon.on_down),
-                    ("PortStatus", mon.on_ps)):
+                    ("PortStatus", mon.on_ps), ("ConnectionUp", mon.halter)):
+      if h is None: continue
       try: core.openflow.removeListener(h)
       except Exception: pass
     try:
@@ -577,7 +590,8 @@ def do_case (case, rep):
     rep.violation("C09 harness-visible exception",
                   traceback.format_exc()[-900:], case)
     nt = True
-  rep.case(repr((case["ops"], case.get("reclose"), case.get("nexus_cfg"))).encode(),
+  rep.case(repr((case["ops"], case.get("reclose"), case.get("nexus_cfg"),
+                 case.get("halt_up"))).encode(),
            nontrivial=bool(nt))
 
 
@@ -698,6 +712,7 @@ def run (spec, rep):
   n = 0
   for case in g:
     n += 1
+    if n % 5 == 2: case["halt_up"] = True
     if n % 4 == 1:
       case["nexus_cfg"] = [(None, False), (None, True), (0xffff, False), (0, True)][(n // 4) % 4]
     if n % 3 == 0:
